@@ -2,4 +2,18 @@
 
 package verifsim
 
-import _ "verifsim/engines/histsim"
+import (
+	"os"
+	"testing"
+
+	"verifsim/engines/histsim"
+)
+
+// TestHistsimChild is the body of the one-shot fresh processes the C19 engine
+// starts to obtain answers from a process with no history. It only runs when asked to.
+func TestHistsimChild(t *testing.T) {
+	if os.Getenv("VERIF_HISTSIM_CHILD") == "" {
+		t.Skip("not a histsim child")
+	}
+	histsim.ChildMain(os.Stdin, os.NewFile(3, "answers"))
+}
